@@ -28,6 +28,7 @@ dp = os.path.join(ROOT, "DESIGN.md")
 s = open(dp).read()
 a = s.index("| seeded change | what it does |")
 b = s.index("\n## F.", a)
-s = s[:a] + table + s[b:]
+keep = s.find("\n**Harmless changes.**", a, b)       # the paragraph after the table is kept
+s = s[:a] + table + (s[keep:b] if keep >= 0 else "") + s[b:]
 open(dp, "w").write(s)
 print(len(rows), "rows")
